@@ -101,12 +101,20 @@ def noopMapper : Bytes → Stage := fun s => .ret s
 
 def argCountBetween (args : List Stage) (lo hi : Nat) : Bool := lo ≤ args.length && args.length ≤ hi
 
+def lenStage (a0 : Stage) : Stage :=
+  a0.bind fun val => .ret (if val = [] then ascii "0" else itoa (wrap64 (countSep val + 1)))
+
 /-- `{@len <arr>}` -/
 def kfArrayLen : Builder := fun args =>
   match args with
-  | [a0] => ok (a0.bind fun val =>
-      .ret (if val = [] then ascii "0" else itoa (wrap64 (countSep val + 1))))
+  | [a0] => ok (lenStage a0)
   | _ => errArgCount
+
+def splitStage (byVal : Bytes) (a0 : Stage) : Stage :=
+  a0.bind fun v => arrayOperator v byVal ArraySeparatorString noopMapper
+
+def joinStage (delim : Bytes) (a0 : Stage) : Stage :=
+  a0.bind fun v => arrayOperator v ArraySeparatorString delim noopMapper
 
 /-- `{@split <string> "delim"}` -/
 def kfArraySplit : Builder := fun args =>
@@ -116,7 +124,7 @@ def kfArraySplit : Builder := fun args =>
   | .ok byVal =>
     if byVal.length = 0 then errEmpty else
     match args with
-    | a0 :: _ => ok (a0.bind fun v => arrayOperator v byVal ArraySeparatorString noopMapper)
+    | a0 :: _ => ok (splitStage byVal a0)
     | [] => errArgCount
 
 /-- `{@join <array> "by"}` -/
@@ -126,7 +134,7 @@ def kfArrayJoin : Builder := fun args =>
   | .error m => .error m
   | .ok delim =>
     match args with
-    | a0 :: _ => ok (a0.bind fun v => arrayOperator v ArraySeparatorString delim noopMapper)
+    | a0 :: _ => ok (joinStage delim a0)
     | [] => errArgCount
 
 /-- Loop state of `@select`: counter and the value returned from inside the loop. -/
@@ -155,11 +163,14 @@ def kfArraySelect : Builder := fun args =>
     | .ok (some index) => ok (selectStage index a0)
   | _ => errArgCount
 
+def mapStage (a0 a1 : Stage) : Stage :=
+  a0.bind fun arr =>
+    arrayOperator arr ArraySeparatorString ArraySeparatorString (fun s => a1.withSub s [])
+
 /-- `{@map <arr> <mapFunc>}` -/
 def kfArrayMap : Builder := fun args =>
   match args with
-  | [a0, a1] => ok (a0.bind fun arr =>
-      arrayOperator arr ArraySeparatorString ArraySeparatorString (fun s => a1.withSub s []))
+  | [a0, a1] => ok (mapStage a0 a1)
   | _ => errArgCount
 
 def reduceStage (initial : Bytes) (a0 a1 : Stage) : Stage :=
@@ -281,10 +292,13 @@ def forLoop (cond incr : Stage) : Nat → Bytes → Nat → Sb → Stage
           if idx > Gen.maxIterations then .ret InfMarker
           else forLoop cond incr fuel val' idx sb
 
+def forStage (a0 a1 a2 : Stage) : Stage :=
+  a0.bind fun val => forLoop a1 a2 (Gen.maxIterations + 2) val 0 {}
+
 /-- `{@for <start> <contExpr> <incrExpr>}` -/
 def kfArrayFor : Builder := fun args =>
   match args with
-  | [a0, a1, a2] => ok (a0.bind fun val => forLoop a1 a2 (Gen.maxIterations + 2) val 0 {})
+  | [a0, a1, a2] => ok (forStage a0 a1 a2)
   | _ => errArgCount
 
 structure FilterSt where
@@ -307,6 +321,9 @@ def kfArrayFilter : Builder := fun args =>
   | [a0, a1] => ok (filterStage a0 a1)
   | _ => errArgCount
 
+def inStage (matchSet : List Bytes) (a0 : Stage) : Stage :=
+  a0.bind fun val => .ret (if matchSet.contains val then TruthyVal else FalsyVal)
+
 /-- `{@in <val> <array>}`: the Go map is only queried for membership, so a list does. -/
 def kfArrayIn : Builder := fun args =>
   match args with
@@ -315,19 +332,23 @@ def kfArrayIn : Builder := fun args =>
     | .error m => .error m
     | .ok (_, false) => errConst
     | .ok (matchString, true) =>
-      let matchSet := splitByte ArraySeparator matchString []
-      ok (a0.bind fun val => .ret (if matchSet.contains val then TruthyVal else FalsyVal))
+      ok (inStage (splitByte ArraySeparator matchString []) a0)
   | _ => errArgCount
+
+/-- The `for _, arg := range args[1:]` loop of `kfJoin`. -/
+def joinArgsLoop (delim : UInt8) : List Stage → Sb → Comp Sb
+  | [], sb => .ret sb
+  | arg :: rest, sb => arg.bind fun v => joinArgsLoop delim rest ((sb.write [delim]).write v)
+
+def joinArgsStage (delim : UInt8) (a0 : Stage) (rest : List Stage) : Stage :=
+  a0.bind fun v0 => (joinArgsLoop delim rest (Sb.write {} v0)).bind fun sb => .ret sb.str
 
 /-- `kfJoin(delim)` of funcsStrings.go, used for `{$ a b}` and `{@ a b}`. -/
 def joinArgs (delim : UInt8) : Builder := fun args =>
   match args with
   | [] => ok (Stage.lit [])
   | [a] => ok a
-  | a0 :: rest =>
-    ok (a0.bind fun v0 =>
-      (rest.foldl (fun (acc : Comp Sb) arg => acc.bind fun sb => arg.bind fun v => .ret ((sb.write [delim]).write v))
-        (.ret (Sb.write {} v0))).bind fun sb => .ret sb.str)
+  | a0 :: rest => ok (joinArgsStage delim a0 rest)
 
 def table : Table := [
   ("$", joinArgs ArraySeparator),
